@@ -386,7 +386,8 @@ def sem(expr, env):
     """(value, width) of a real miasm expression under env"""
     A = env.A
     if expr.is_int():
-        return A.const(int(expr), expr.size), expr.size
+        v = expr._arg
+        return (A.const(v, expr.size) if isinstance(v, int) else (v if A is INT else None)), expr.size
     if expr.is_id():
         return env.ident(expr.name, expr.size), expr.size
     if expr.is_loc():
